@@ -15,7 +15,7 @@ from .verifier import Verifier
 from . import solve
 from . import lemmas
 
-CONTRACT_MODULES = ["schedule", "basic_schedules", "multistage", "twolevel", "mixed", "seq_basic", "hrevolve", "seq_periodic"]
+CONTRACT_MODULES = ["schedule", "basic_schedules", "multistage", "twolevel", "mixed", "seq_basic", "hrevolve", "seq_periodic", "seq_tables", "seq_revolve"]
 VERIF = os.path.dirname(os.path.dirname(os.path.abspath(__file__)))
 
 
@@ -227,7 +227,8 @@ def _gen_worker(job):
                 else solve.to_smt2(ob.pc, ob.goal)})
         covers = []
         for site, pc in r["covers"]:
-            if site.startswith("raise") or site.startswith("call"):
+            if not (site.startswith("yield") or site.startswith("return") or site == "end"
+                    or site.endswith("back_edge")):
                 continue      # vacuity is about reaching yields / returns / back edges
             sv = z3.Solver()
             for c in pc:
